@@ -397,6 +397,7 @@ def run(prog, run):
     rule_reader_shape(prog, run)
     rule_attr_before_content(prog, run)
     rule_positional_records(prog, run)
+    rule_optional_guards(prog, run)
 
 
 # --------------------------------------------------------------------------- R3
@@ -1351,4 +1352,45 @@ def rule_positional_records(prog, run):
                                                                        rec['fields'][k]['name'], T.split('::')[-1], ', '.join(rec['fields'][x]['name'] for x in js)))
             else:
                 run.ok(rid, f.loc(i), '%s{...}: every name read into a member is the one written for it' % T.split('::')[-1])
+    return n
+
+
+# --------------------------------------------------------------------------- R16: an optional member is written whenever it is engaged
+def rule_optional_guards(prog, run):
+    rid = run.rule('C01.R16', 'a serializer decides whether to write a std::optional member by its engagement (has_value / operator bool), not by comparing its value: a guard such as '
+                              '"member > 0" skips an engaged value the getter reports and the parser would have stored (0, an empty string ...), so that value does not survive the '
+                              'round trip', floor=20)
+    n = 0
+    for f in prog.fns.values():
+        if f.entry is None or '/src/' not in f.file or f.raw.get('dependent') or not any('QXmlStreamWriter' in (p_.get('t') or '') for p_ in (f.params if not f.is_lambda else [])):
+            continue
+        for i, c in f.calls():
+            if (f.cname(c) or '') not in codec.W_API:
+                continue
+            opt_members = {}
+            for a in c.get('args', []):
+                for j in f.walk(a):
+                    m = f.nodes[j]
+                    if m['k'] == 'mem' and (m.get('t') or '').replace('const ', '').startswith('std::optional<'):
+                        opt_members[m['f']] = m['name']
+            if not opt_members:
+                continue
+            n += 1
+            run.instance(rid)
+            bad = None
+            for cond, pol in f.atomic_assertions_at(i):
+                bo = f.binop(f.skip(cond))
+                if not bo or bo[0] not in ('>', '<', '>=', '<=', '!=', '=='):
+                    continue
+                sides = [set(f.nodes[j].get('f') for j in f.walk(x) if f.nodes[j]['k'] == 'mem') for x in bo[1:]]
+                other_is_value = any(f.nodes[f.skip(x)]['k'] in ('int', 'str', 'char', 'bool') or (f.const_value(x) is not None and f.const_value(x)[0] in ('int', 'str')) for x in bo[1:])
+                hit = [m for m in opt_members if any(m in s_ for s_ in sides)]
+                if hit and other_is_value and not any(f.nodes[f.skip(x)]['k'] == 'var' and f.nodes[f.skip(x)].get('name') in ('nullopt', 'std::nullopt') for x in bo[1:]):
+                    bad = (cond, opt_members[hit[0]])
+            if bad:
+                run.violation(rid, '%s#value-guard:%s' % (f.outer_name(), bad[1]), f.loc(i),
+                              '%s writes the optional member %s only when %s holds: an engaged value for which the comparison is false is reported by the getter and read by the parser, '
+                              'but never written' % (f.display()[:50], bad[1], f.fmt(bad[0], inline=False)[:50]))
+            else:
+                run.ok(rid, f.loc(i), 'optional member written by engagement', nontrivial=False)
     return n
